@@ -75,12 +75,24 @@ func (p *TriggerPool) stop() {
 }
 
 func (p *TriggerPool) maxIterationsReached() {
+	// stop accepting work and discard what is pending in one step with respect to
+	// sendJobsForExecution, so that a tick racing the limit is discarded silently
+	// instead of being reported as dropped later
+	p.jobsAvailableCond.L.Lock()
+	p.stopWorkers.Store(true)
 	p.jobsToExecute.set(0)
+	p.jobsAvailableCond.L.Unlock()
+
 	p.workerCtxCancel()
 }
 
 func (p *TriggerPool) sendJobsForExecution(numJobs int) {
 	p.jobsAvailableCond.L.Lock()
+
+	if numJobs > 0 && !p.running() {
+		// the pool has stopped: nobody would ever start or report these jobs
+		numJobs = 0
+	}
 
 	jobsDiscarded := p.jobsToExecute.set(numJobs)
 	p.jobsAvailableCond.Broadcast()
